@@ -74,7 +74,7 @@ def world_leg(run, PROP, rng, tier, drv, har, n, monitors, gen_kw=None, clean_or
 
 
 def world_check(PROP, THEOREMS, tier, seed, monitors, n_quick=250, n_thorough=2500, gen_kw=None, extra_modules=("Model.All",),
-                clean_oracle=False, replay=None, note=None, scen_gen=None):
+                clean_oracle=False, replay=None, note=None, scen_gen=None, before_finish=None):
     run = Run(PROP, tier, seed, "proof")
     rng = random.Random(seed)
     if THEOREMS and isinstance(THEOREMS[0], str):
@@ -111,6 +111,8 @@ def world_check(PROP, THEOREMS, tier, seed, monitors, n_quick=250, n_thorough=25
                         "H-hash: SipHash-1-3 collisions are not considered"]
     if note:
         run.assumptions.append(note)
+    if before_finish:
+        before_finish(run)
     return run.finish()
 
 
